@@ -57,7 +57,8 @@ func init() {
 			tab := loadIndexTable(c)
 			used := map[int]bool{}
 			n := map[string]int{}
-			for _, site := range collectIndexSites(c) {
+			allSites := collectIndexSites(c)
+			for _, site := range allSites {
 				fn := core.FuncName(site.Fn)
 				expr := site.Expr
 				if expr == "" {
@@ -100,6 +101,27 @@ func init() {
 					}
 				}
 				if !matched {
+					// the reviewed function is gone from the tree (renamed, moved to another type) and this is the only
+					// expression of the package with the reviewed text: the reviewed code under its new name
+					for i, e := range tab.Entries {
+						if e.Expr != site.Expr || used[i] || funcByBareName(c, e.Function) {
+							continue
+						}
+						n := 0
+						for _, o := range allSites {
+							if o.Expr == site.Expr && o.Fn.Pkg == site.Fn.Pkg {
+								n++
+							}
+						}
+						if n == 1 {
+							used[i] = true
+							matched = true
+							s.OK(key, pos, "reviewed invariant: "+e.Invariant+" (reviewed in "+bareFuncName(e.Function)+", which the tree no longer has; the only expression of this text in the package)")
+							break
+						}
+					}
+				}
+				if !matched {
 					s.Unknown(key, pos, "cannot show the expression is within bounds ("+fact+") and it is not a reviewed invariant: possible index-out-of-range panic")
 				}
 			}
@@ -112,6 +134,17 @@ func init() {
 		},
 	})
 	_ = strings.Join
+}
+
+// funcByBareName: the tree has a function with the bare name of the reviewed one.
+func funcByBareName(c *Ctx, reviewed string) bool {
+	want := bareFuncName(reviewed)
+	for _, f := range c.P.ModFns {
+		if f.Parent() == nil && f.Name() == want {
+			return true
+		}
+	}
+	return false
 }
 
 // lenRelativeText: the site written out with an index that the SSA form shows to be len(X) − k of the very slice X it
